@@ -1,6 +1,7 @@
 import VelaVerif.Spec.Decode
 import VelaVerif.Model.NpuOp
 import VelaVerif.Gen.Core
+import VelaVerif.Spec.Shram
 /-!
 # C06 specification: "the stream encodes exactly the operations it was given"
 
@@ -53,6 +54,51 @@ def specStrides (fm : NpuOp.FM) : Int × Int × Int :=
     if fm.nhcwb16 then (es * fm.shape.width * roundUp16 fm.shape.depth, 16 * es, 16 * es * fm.shape.width)
     else (fm.shape.width * fm.shape.depth * es, fm.shape.depth * es, es)
 
+/-! ## what the hardware needs for the operation, independent of any allocator -/
+
+/-- every feature map of the operation carries a quantisation scale (the output is rescaled from the accumulators) -/
+def allScaled (op : NpuOp.BlockOp) : Bool :=
+  op.ifm.scaled && op.ofm.scaled && (match op.ifm2 with | some f => f.scaled | none => true)
+
+/-- Accumulator width the operation requires: products / sums of 16-bit inputs that are rescaled need 40-bit
+    accumulators; maximum and average pooling never do (no products are accumulated); everything else 32 bit. -/
+def requiredAccBitsCore (plainPooling : Bool) (ifmBits : Nat) (scaled : Bool) : Nat :=
+  if ifmBits = 16 && scaled && !plainPooling then 40 else 32
+
+def requiredAccBits (op : NpuOp.BlockOp) : Nat :=
+  let plainPooling := op.kind == .pool && (op.subOp = 0 || op.subOp = 1)      -- MAX, AVERAGE (not REDUCE_SUM)
+  requiredAccBitsCore plainPooling op.ifm.dtype.bits (allScaled op)
+
+/-- `NPU_SET_ACC_FORMAT`: 0 = 32-bit integer, 1 = 40-bit integer (2 = 16-bit float, never required here) -/
+def specAccFormat (bits : Nat) : Int := if bits = 40 then 1 else 0
+
+/-- the operation as the SHRAM specification of C15 sees it (`Spec/Shram.lean`) -/
+def shramView (op : NpuOp.BlockOp) : Spec.Shram.OpView :=
+  let isEw := op.kind == .elementwise
+  let binaryTensor := isEw && !specEwUnary op.subOp && op.ifm2Scalar.isNone
+  let k : Kernel := if isEw then ⟨1, 1, 1, 1, 1, 1⟩ else op.kernel.getD ⟨1, 1, 1, 1, 1, 1⟩
+  { usage := if binaryTensor then .ewBinary else if isEw then .ewUnary else .mac,
+    equalDepth := isEw || op.kind == .depthwise || (op.kind == .pool && op.subOp ≠ 2),
+    ifmBits := op.ifm.dtype.bits, ifmDepth := op.ifm.shape.depth.toNat,
+    partKernel := op.kind == .conv && op.partKernelFirst,
+    kernelW := k.width.toNat, kernelH := k.height.toNat, strideX := k.strideX.toNat, strideY := k.strideY.toNat,
+    dilX := k.dilationX.toNat, dilY := k.dilationY.toNat,
+    upscale := if op.upscale = 0 then 1 else 2, nearest := op.upscale = 1,
+    ofmHeight := op.ofm.shape.height.toNat,
+    usesLut := (match op.activation with | some a => a.opType = 3 | none => false) }
+
+/-- The SHRAM partitions programmed at the operation (`IFM_IB_END`, `IFM2_IB_START`, `AB_START`; the IFM partition
+    starts after the banks of the output stage, the accumulators end where the lookup table / unusable tail begins)
+    must be ordered and large enough to double-buffer the IFM block and the accumulators **of the width the operation
+    requires** — judged by `Spec.Shram.checkConfig`, not by what the allocator says it reserved. -/
+def shramVerdict (srow : Gen.Shram.Row) (unusedTail : Nat) (op : NpuOp.BlockOp) (d : Decode.BlockOp) : String :=
+  let v := shramView op
+  let ibStart : Int := srow.reservedOutputBanks
+  let lutStart : Int := if v.usesLut then (srow.lutAddress / srow.bankSizeBytes : Nat) else (srow.cfgShramBanks - unusedTail : Nat)
+  let ib2 : Int := if v.usage == .ewBinary then (match d.ib2Start with | some x => (x : Int) | none => -1) else ibStart
+  Spec.Shram.checkConfig srow unusedTail v ⟨d.blkW, d.blkH, d.blkD⟩ (requiredAccBits op)
+    ⟨ibStart, ib2, d.ibEnd, d.abStart, lutStart⟩
+
 /-! ## comparison -/
 
 abbrev Msgs := List String
@@ -101,7 +147,7 @@ def cmpScale (nm : String) (exp : Option (Int × Int)) (got : Option Nat) : Msgs
 def wantWait (w : Int) : Int := if w ≥ 0 then w else -1
 
 def cmpBlock (arch : Arch) (strict : Bool) (op : NpuOp.BlockOp) (d : Decode.BlockOp) (regs : RegFile)
-    (kw dw : Option Nat) : Msgs :=
+    (kw dw : Option Nat) (srow : Option Gen.Shram.Row) (unusedTail : Nat) : Msgs :=
   let isEw := op.kind == .elementwise
   let kindOk := match op.kind, d.kind with
     | .conv, .conv => true | .depthwise, .depthwise => true | .pool, .pool => true
@@ -180,7 +226,12 @@ def cmpBlock (arch : Arch) (strict : Bool) (op : NpuOp.BlockOp) (d : Decode.Bloc
   chk "block.height" op.blockConfig.height d.blkH ++ chk "block.width" op.blockConfig.width d.blkW ++
   chk "block.depth" op.blockConfig.depth d.blkD ++
   chk "shram.ibEnd" op.oracle.ibEnd d.ibEnd ++ chk "shram.abStart" op.oracle.abStart d.abStart ++
-  chk "accFormat" op.oracle.accFormat d.accFormat ++ chk "blockdep" op.oracle.blockdep d.blockdep ++
+  chk "accFormat" op.oracle.accFormat d.accFormat ++
+  chk "accFormat.required" (specAccFormat (requiredAccBits op)) d.accFormat ++
+  (match srow with
+   | some sr => let v := shramVerdict sr unusedTail op d; if v == "1" then [] else [s!"shram.layout:{v}"]
+   | none => ["shram.row-missing"]) ++
+  chk "blockdep" op.oracle.blockdep d.blockdep ++
   precMsgs ++
   (if gs then cmpScale "ofmScale" op.oracle.ofmScale d.ofmScale else []) ++
   (if isEw && (op.subOp = 0 || op.subOp = 1) then
@@ -305,6 +356,7 @@ def judge (row : Gen.AccRow) (arch : Arch) (strict : Bool) (ops : List Op) (word
     let maxAddr : Int := row.maxAddressOffset
     let stopOk := st.stops = 1 && st.endsWithStop && st.trailing = 0
     let parOk := if row.isU65 then st.ncores = row.cores else true
+    let srow := Gen.Shram.rows.find? (·.name == row.name)
     if st.ops.length ≠ ops.length || regs.length ≠ ops.length then
       ⟨"ok", st.ops.length, stopOk, [s!"op-count:exp={ops.length}:got={st.ops.length}"], [], [], []⟩
     else
@@ -314,7 +366,7 @@ def judge (row : Gen.AccRow) (arch : Arch) (strict : Bool) (ops : List Op) (word
         match op, so.op with
         | .block b, .block d =>
           let (al, sb) := alignBlock d
-          (acc.1 ++ tag i (cmpBlock arch strict b d rf so.kernelWait so.dmaWait), acc.2.1 ++ tag i (fitsBlock b maxAddr),
+          (acc.1 ++ tag i (cmpBlock arch strict b d rf so.kernelWait so.dmaWait srow row.shramReservedUnusedBanks), acc.2.1 ++ tag i (fitsBlock b maxAddr),
            acc.2.2.1 ++ tag i al, acc.2.2.2 ++ tag i sb)
         | .dma b, .dma d =>
           (acc.1 ++ tag i (cmpDma b d so.kernelWait so.dmaWait), acc.2.1 ++ tag i (fitsDma b maxAddr),
